@@ -78,6 +78,8 @@ fn variants() -> Vec<Variant> {
         Variant { name: "file_watch_registered_through_dotdot", watch_file: Some("src/../ext/dep.lua"), root: "src", steps: vec![edit("ext/dep.lua", SaveStyle::InPlace)] },
         Variant { name: "root_registered_through_dotdot", watch_file: None, root: "src/../src", steps: vec![edit("src/a.lua", SaveStyle::InPlace), Step::Sleep(700), add("src/fresh/new.lua"), Step::Sleep(700), rm("src/sub/b.lua")] },
         Variant { name: "root_registered_with_dot_atomic_save", watch_file: None, root: "./src", steps: vec![edit("src/a.lua", SaveStyle::Atomic), Step::Sleep(700), mv("src/sub", "src/moved")] },
+        Variant { name: "move_file_into_new_directory", watch_file: None, root: "src", steps: vec![mv("src/a.lua", "src/newdir/a.lua"), Step::Sleep(700), edit("src/newdir/a.lua", SaveStyle::InPlace)] },
+        Variant { name: "rm_r_then_move_file_into_it_again", watch_file: None, root: "src", steps: vec![rmdir("src/sub"), Step::Sleep(700), mv("src/a.lua", "src/sub/moved.lua"), Step::Sleep(700), add("src/sub/b.lua")] },
         Variant { name: "file_watch_save_in_place", watch_file: Some("ext/dep.lua"), root: "src", steps: vec![edit("ext/dep.lua", SaveStyle::InPlace)] },
         Variant { name: "file_watch_and_dir_watch_save_in_place", watch_file: Some("src/a.lua"), root: "src", steps: vec![edit("src/a.lua", SaveStyle::InPlace)] },
     ]
@@ -124,6 +126,9 @@ fn real_apply(root: &Path, op: &Op, style: SaveStyle) {
             let _ = fs::remove_dir_all(root.join(path));
         }
         Op::Rename { from, to } => {
+            if let Some(parent) = root.join(to).parent() {
+                let _ = fs::create_dir_all(parent);
+            }
             let _ = fs::rename(root.join(from), root.join(to));
         }
         _ => {}
@@ -307,16 +312,19 @@ pub fn run(out_path: &Path) -> i32 {
                 .filter(|(k, _)| k == "Create")
                 .filter_map(|(_, p)| p.first().cloned())
                 .collect();
+            let raced = |path: &String| created_dirs.iter().any(|d| path.starts_with(&format!("{}/", d)));
             seq.iter()
-                .filter(|(k, p)| {
-                    !(k == "Create"
-                        && p.first().is_some_and(|path| {
-                            created_dirs
-                                .iter()
-                                .any(|d| path.starts_with(&format!("{}/", d)))
-                        }))
+                .filter(|(k, p)| !(k == "Create" && p.first().is_some_and(raced)))
+                // a file moved into such a directory: the `MOVED_TO` half may be missed
+                // (darklua removes the old name and rescans either way)
+                .filter(|(k, p)| !(k == "Rename" && p.len() == 1 && raced(&p[0])))
+                .map(|(k, p)| {
+                    if k == "Rename" && p.len() == 2 && raced(&p[1]) {
+                        (k.clone(), vec![p[0].clone()])
+                    } else {
+                        (k.clone(), p.clone())
+                    }
                 })
-                .cloned()
                 .collect()
         };
         let ok = essential(&stub) == essential(&real)
